@@ -1,1 +1,2 @@
 pub mod dbus;
+pub mod names;
